@@ -26,6 +26,18 @@ type refState struct {
 	defined bool       // false once an op outside the reference's domain was executed
 	overlap bool       // a bulk op whose source and destination overlap in one storage was executed
 	exp     []string   // expected observation per op ("" = not checked)
+	// narrow != 0: the VARIANT of the reference in which C storages hold 32-bit elements (1: C.int, 2: C.uint) — not what the
+	// property says; used only to classify a difference as the known finding c-int-width (see ndClassify)
+	narrow int
+	cStore []bool // per storage: a C buffer
+}
+
+// narrow32: int(C.int(x)) (mode 1) / uint(C.uint(x)) (mode 2) on a 64-bit platform
+func narrow32(mode int, x int64) int64 {
+	if mode == 2 {
+		return int64(uint32(x))
+	}
+	return int64(int32(x))
 }
 
 func prod(xs []int) int {
@@ -87,7 +99,13 @@ func (v *refView) contiguous() bool {
 }
 
 func (s *refState) newRoot(vals []int64, shape []int, isC bool) *refView {
+	if isC && s.narrow != 0 {
+		for i := range vals {
+			vals[i] = narrow32(s.narrow, vals[i])
+		}
+	}
 	s.stores = append(s.stores, vals)
+	s.cStore = append(s.cStore, isC)
 	pos := make([]int, len(vals))
 	for i := range pos {
 		pos[i] = i
@@ -204,7 +222,12 @@ func (s *refState) step(t *tokenReader, halfTypes bool) {
 		}
 		return nil
 	}
-	write := func(dst *refView, k int, x int64) { s.stores[dst.root][dst.pos[k]] = x }
+	write := func(dst *refView, k int, x int64) {
+		if s.narrow != 0 && s.cStore[dst.root] {
+			x = narrow32(s.narrow, x)
+		}
+		s.stores[dst.root][dst.pos[k]] = x
+	}
 	switch name {
 	case "slice":
 		loc, dims, step := t.ints(), t.ints(), optInts(t)
@@ -449,10 +472,13 @@ func sameInts(a, b []int) bool {
 }
 
 // refRun interprets a whole program (tokens after `tag eltype`); returns expectations and the final state.
-func refRun(toks []string) *refState {
+func refRun(toks []string) *refState { return refRunMode(toks, 0) }
+
+// refRunMode: narrow = 0 is the reference semantics of the property; 1 / 2 the 32-bit-C-element variant (see refState.narrow)
+func refRunMode(toks []string, narrow int) *refState {
 	t := &tokenReader{toks: toks}
 	nops := t.int()
-	s := &refState{defined: true}
+	s := &refState{defined: true, narrow: narrow}
 	for i := 0; i < nops && s.defined; i++ {
 		s.step(t, false)
 	}
@@ -489,37 +515,63 @@ func oracleND(c *Ctx, id int, body, impl string) {
 			return
 		}
 	}
+	what := ndCompare(s, parts, toks)
+	if what == "" {
+		return
+	}
+	// Is the difference the 32-bit width of the C element type of the int / uint instantiations, and nothing else? It is iff the
+	// implementation agrees, op by op and in the final contents of every storage, with the variant of the reference in which
+	// writes to C storages narrow to 32 bits. Any OTHER difference fails that comparison too and is reported under the plain scope.
+	if mode := narrowMode(toks[1]); mode != 0 {
+		if s32 := refRunMode(toks[2:], mode); ndCompare(s32, parts, toks) == "" {
+			c.Stats.Count("c_int_width_differences:" + toks[1])
+			c.OracleFail(id, "ND:c-int-width", "C-backed "+toks[1]+" array holds 32-bit elements: "+what, body)
+			return
+		}
+	}
+	c.OracleFail(id, scope, what, body)
+}
+
+func narrowMode(elt string) int {
+	switch elt {
+	case "int":
+		return 1
+	case "uint":
+		return 2
+	}
+	return 0
+}
+
+// ndCompare: the first difference between the implementation's observations and the reference state s ("" = none)
+func ndCompare(s *refState, parts []string, toks []string) string {
 	for i, e := range s.exp {
 		if i >= len(parts) {
-			c.OracleFail(id, scope, fmt.Sprintf("op %d: no result (run halted early: %s)", i, parts[len(parts)-1]), body)
-			return
+			return fmt.Sprintf("op %d: no result (run halted early: %s)", i, parts[len(parts)-1])
 		}
 		got := parts[i]
 		if strings.Contains(got, "CANARY-OVERWRITTEN") {
-			c.OracleFail(id, scope, fmt.Sprintf("op %d wrote outside the caller's C buffer", i), body)
-			return
+			return fmt.Sprintf("op %d wrote outside the caller's C buffer", i)
 		}
 		if e == "" {
 			// unchecked observation; but a defined op must not panic
 			if s.defined || i < len(s.exp)-1 {
 				if strings.HasPrefix(got, "panic") {
-					c.OracleFail(id, scope, fmt.Sprintf("op %d (%s) is within the property's domain but the code panicked: %s", i, opName(toks, i), got), body)
-					return
+					return fmt.Sprintf("op %d (%s) is within the property's domain but the code panicked: %s", i, opName(toks, i), got)
 				}
 			}
 			continue
 		}
 		if got != e {
-			c.OracleFail(id, scope, fmt.Sprintf("op %d (%s): property says `%s`, implementation `%s`", i, opName(toks, i), e, trunc(got, 200)), body)
-			return
+			return fmt.Sprintf("op %d (%s): property says `%s`, implementation `%s`", i, opName(toks, i), e, trunc(got, 200))
 		}
 	}
 	if s.defined {
 		last := parts[len(parts)-1]
 		if last != s.heapDump() {
-			c.OracleFail(id, scope, fmt.Sprintf("final storage contents differ: property says `%s`, implementation `%s`", trunc(s.heapDump(), 300), trunc(last, 300)), body)
+			return fmt.Sprintf("final storage contents differ: property says `%s`, implementation `%s`", trunc(s.heapDump(), 300), trunc(last, 300))
 		}
 	}
+	return ""
 }
 
 func trunc(s string, n int) string {
